@@ -378,9 +378,10 @@ func main() {
 	addMore(r, &scs)
 	addKeepAlive(r, &scs)
 	addReconfigure(r, &scs)
+	addDiscovery(r, &scs)
 	sum := mcx.Explore(r, scs, mcx.Config{Wall: ev.Pick(r, 4*time.Minute, 30*time.Minute)})
 	mcx.Report(r, scs, sum)
-	r.Set("rule", "history = sequence of exchanges, each one of 27 kinds (plain/separate/NON Do, silence+cancel, reset, 3-block upload and download with success / abort / wrong block, duplicate token, observe register+cancel / live / silent / 4.04 / rejected deregistration / one-block notification, ping, one-way writes, incoming CON/NON requests, aborted incoming block-wise upload, injected write error); after the history the virtual clock advances 300 s and housekeeping runs twice; oracle: every table size reported by the overlay accessor (token handlers, MID handlers, per-ID locks, response cache, block-wise sending/receiving caches, limiter queues/waiters/processed, observations) is zero, observations = the live ones; distinct outcome = distinct history; keep-alive family: all histories (depth 6-8) over {silent round, other message, pong, late pong} on tcp and udp connections configured by options.WithKeepAlive: at most one ping continuation retained, none after its pong")
+	r.Set("rule", "udp-server discovery histories (every sequence up to the depth over {ok, unsent: context already ended, bad address, token re-used}; multicast tables empty after every event); history = sequence of exchanges, each one of 27 kinds (plain/separate/NON Do, silence+cancel, reset, 3-block upload and download with success / abort / wrong block, duplicate token, observe register+cancel / live / silent / 4.04 / rejected deregistration / one-block notification, ping, one-way writes, incoming CON/NON requests, aborted incoming block-wise upload, injected write error); after the history the virtual clock advances 300 s and housekeeping runs twice; oracle: every table size reported by the overlay accessor (token handlers, MID handlers, per-ID locks, response cache, block-wise sending/receiving caches, limiter queues/waiters/processed, observations) is zero, observations = the live ones; distinct outcome = distinct history; keep-alive family: all histories (depth 6-8) over {silent round, other message, pong, late pong} on tcp and udp connections configured by options.WithKeepAlive: at most one ping continuation retained, none after its pong")
 	r.Sample(map[string]any{"scenario": scs[0].Name, "history": "download-abort-cancel observe-cancel"})
 	r.Assume("exchanges of one history run one after another (concurrent exchanges are covered by C03/C16)", "accessors are additional files injected by the overlay (hooks/std), no line of /repo changes")
 	r.Finish()
